@@ -302,7 +302,7 @@ def _class_values_of_attr(ctx, cls, attr):
 
 def _instance_classes(ctx, f, expr, cls, depth=0):
     """[(ClassInfo, fresh?)] the expression may evaluate to, inside method f of cls"""
-    if depth > 5:
+    if depth > 11:
         return []
     out = []
     if isinstance(expr, ast.Call):
@@ -334,6 +334,15 @@ def _instance_classes(ctx, f, expr, cls, depth=0):
             expr.value.id == "self":
         # instances retained in self.<attr> (container): everything ever stored
         attr = expr.attr
+        prop = cls.lookup(attr)
+        if prop is not None and any("property" in ast.unparse(d) for d in prop.node.decorator_list):
+            # a property: whatever its getter returns (``last_opt`` -> this thread's
+            # entry of the retained sub-optimizers)
+            for n in walk_local(prop.node):
+                if isinstance(n, ast.Return) and n.value is not None:
+                    out += [(c2, False) for c2, _ in
+                            _instance_classes(ctx, prop, n.value, cls, depth + 1)]
+            return out
         for c in cls.mro():
             for m in c.methods.values():
                 for kind, a2, node, keyexpr in state_writes(ctx, m):
